@@ -32,10 +32,12 @@ def obsOf (impl : Json) : Obs :=
   let nNR := natD errs "recoverer-not-running"
   let nNS := natD errs "svc-not-started"
   let nOther := natD errs "svc-already-stopped" + natD errs "other"
-  let totalCalls := ["logProvider", "recoveryProvider", "upkeepGetter", "eventsProvider", "pipeline", "stateUpdater"].foldl
+  let totalCalls := ["logProvider", "recoveryProvider", "upkeepGetter", "eventsProvider", "pipeline", "stateUpdater", "resultStoreGC",
+    "v2PerformLogs", "v2StaleLogs", "v2ActiveUpkeeps"].foldl
     (fun a k => a + natD calls k) 0
   let within := intD impl "resumedWithinNs"
   { survived := boolD impl "survived" false, closeCalled := boolD impl "closeCalled" false, closeReturned := boolD impl "closeReturned" false,
+    closedAtNs := natD impl "closedAtNs",
     errNotRunning := nNR, errNotStarted := nNS, errOther := nOther,
     leakedServiceStart := natD leaked "serviceStart", leakedService := natD leaked "service",
     leakedAux := natD leaked "aux", leakedInflight := natD leaked "inflight",
@@ -54,9 +56,10 @@ def handle (input impl : Json) : R Reply := do
   let o := obsOf impl
   let died := !o.survived
   -- a panic site whose first panicking call was never reached injects nothing
-  let m := predict current cs o.errNotRunning o.errNotStarted (o.closeCalled || (cs.scenario == "close")) (if died then 1 else o.panicsInjected)
+  let m := predict current cs o.closedAtNs o.errNotRunning o.errNotStarted (o.closeCalled || (cs.scenario == "close")) (if died then 1 else o.panicsInjected)
   let agreeLive :=
     o.closeReturned == m.closeReturned && decide (o.errOther = 0) &&
+    decide (o.errNotRunning = m.errNotRunning) && decide (o.errNotStarted = m.errNotStarted) &&
     decide (o.leakedServiceStart = m.leakedServiceStart) && decide (o.leakedService = m.leakedService) &&
     o.bubbleEnded == m.bubbleEnded &&
     decide (o.after2ndServiceStart = m.after2ndServiceStart) && decide (o.after2ndService = m.after2ndService) &&
@@ -68,6 +71,8 @@ def handle (input impl : Json) : R Reply := do
   let closeAt := natD input "closeAt"
   let tags :=
     ["scenario:" ++ cs.scenario] ++
+    (match input.getObjVal? "family" with | .ok (.str "v2") => ["family:v2"] | _ => []) ++
+    (match input.getObjVal? "holdSite" with | .ok (.str h) => if h != "" then ["hold-site:" ++ h] else [] | _ => []) ++
     (if cs.panicSite != "" then ["panic-site:" ++ cs.panicSite] else []) ++
     (if si then [] else [(classify cs o).tag]) ++
     (if o.survived && decide (o.panicsInjected > 0) then ["panic-contained"] else []) ++
@@ -75,9 +80,9 @@ def handle (input impl : Json) : R Reply := do
     (if cs.scenario == "panic-close" && decide (closeAt < cs.coolDownNs) then ["close-soon-after-panic"] else []) ++
     (if natD input "work" > 0 then ["work-in-flight"] else []) ++
     (if cs.scenario == "close" then ["close-at:" ++ closeAtBucket closeAt] else [])
-  let key := s!"{cs.scenario}|{cs.panicSite}|{closeAtBucket closeAt}|y{natD input "yields"}|p{natD input "preYields"}|w{natD input "work"}|l{cs.latencyNs}|a{natD input "panicAtCall"}c{natD input "panicCount"}|{closeAt}|nr{o.errNotRunning}ns{o.errNotStarted}"
+  let key := s!"{(asStr (fieldD input "family" (.str ""))).toOption.getD ""}|{(asStr (fieldD input "holdSite" (.str ""))).toOption.getD ""}|{natD input "holdNs"}|{natD input "holdAtCall"}|{cs.scenario}|{cs.panicSite}|{closeAtBucket closeAt}|y{natD input "yields"}|p{natD input "preYields"}|w{natD input "work"}|l{cs.latencyNs}|a{natD input "panicAtCall"}c{natD input "panicCount"}|{closeAt}|nr{o.errNotRunning}ns{o.errNotStarted}"
   pure { agree := agree, specModel := sm, specImpl := si,
-         diff := if agree then "" else s!"model: survived={m.survived} closeReturned={m.closeReturned} serviceStart={m.leakedServiceStart} service={m.leakedService} bubbleEnded={m.bubbleEnded} resumed={m.resumed}; impl: survived={o.survived} closeReturned={o.closeReturned} serviceStart={o.leakedServiceStart} service={o.leakedService} bubbleEnded={o.bubbleEnded} resumed={o.resumed} errOther={o.errOther}",
+         diff := if agree then "" else s!"model: survived={m.survived} closeReturned={m.closeReturned} notRunning={m.errNotRunning} notStarted={m.errNotStarted} serviceStart={m.leakedServiceStart} service={m.leakedService} bubbleEnded={m.bubbleEnded} resumed={m.resumed}; impl: survived={o.survived} closeReturned={o.closeReturned} notRunning={o.errNotRunning} notStarted={o.errNotStarted} serviceStart={o.leakedServiceStart} service={o.leakedService} bubbleEnded={o.bubbleEnded} resumed={o.resumed} errOther={o.errOther}",
          fail := fail, nontrivial := true, tags := tags, key := key }
 
 end AutoVerif.C18
